@@ -6,7 +6,6 @@ package pcommon
 import (
 	"encoding/json"
 	"fmt"
-	"strings"
 
 	"verif/internal/fw"
 	"verif/internal/last"
@@ -45,7 +44,7 @@ func RunProgram(c *fw.Ctx, chunk *last.Chunk, cfg *lrun.Config, cs Case, classif
 	if o.Model.Abort != "" {
 		c.Inconclusive("model:" + o.Model.Abort)
 		o.Aborted = true
-		if strings.Contains(o.Model.Abort, "budget") || strings.Contains(o.Model.Abort, "depth") || strings.Contains(o.Model.Abort, "overflow") {
+		if lrun.ResourceAbort(o.Model.Abort) {
 			return o
 		}
 	}
